@@ -11,6 +11,7 @@ KEYSETS = {
     'int-float': (np.array([1, 2, 2, 3, 5]), np.array([2., 5., 7.5, 2.])),
     'float': (np.array([1.5, 2., 2., 3.25, 5.]), np.array([2., 5., 7.125, 1.5])),
     'float-nan': (np.array([1.5, 2., 2., np.nan, 5.]), np.array([2., 5., np.nan, 1.5])),
+    'float-signed-zero': (np.array([0., -0., 2., 3.25, 5.]), np.array([2., -0., 7.125, 0.])),
     'str': (np.array(['a', 'bb', 'bb', 'ccc', 'e']), np.array(['bb', 'e', 'zz', 'bb'])),
     'str-width': (np.array(['a', 'bb', 'bb', 'c', 'e']), np.array(['bb', 'e', 'zzzz', 'bb'])),
     'bytes-free': (np.array([10, 20, 20, 30, 50], dtype='uint8'), np.array([20, 50, 70, 20], dtype='int64')),
@@ -21,6 +22,7 @@ SECOND = {
     'int-float': (np.array([0, 0, 1, 1, 0]), np.array([0., 0., 1., 1.])),
     'float': (np.array([0., 0., 1., 1., 0.]), np.array([0., 0., 1., 0.])),
     'float-nan': (np.array([0., 0., 1., 1., 0.]), np.array([0., 0., 1., 0.])),
+    'float-signed-zero': (np.array([-0., 0., 1., 1., 0.]), np.array([0., 0., 1., -0.])),
     'str': (np.array(['x', 'x', 'y', 'y', 'x']), np.array(['x', 'x', 'y', 'y'])),
     'str-width': (np.array(['x', 'x', 'yy', 'yy', 'x']), np.array(['x', 'x', 'yy', 'y'])),
     'bytes-free': (np.array([0, 0, 1, 1, 0]), np.array([0, 0, 1, 1], dtype='uint8')),
@@ -62,7 +64,7 @@ def shapes_case(R, kind, shape, direction, seln, view):
     dr = Data(k=k2, s=s2, w=np.arange(len(k2), dtype=float), label='R')
     lc = {'1-1': ('k',), 'n-n': ('k', 's'), '1-n': ('k',), 'n-1': ('k', 's')}[shape]
     rc = {'1-1': ('k',), 'n-n': ('k', 's'), '1-n': ('k', 's'), 'n-1': ('k',)}[shape]
-    if shape in ('1-n', 'n-1') and kind in ('str', 'str-width', 'float', 'float-nan', 'int-float', 'int32-int64', 'bytes-free'):
+    if shape in ('1-n', 'n-1') and kind in ('str', 'str-width', 'float', 'float-nan', 'float-signed-zero', 'int-float', 'int32-int64', 'bytes-free'):
         # second column must be comparable with the key column: reuse the key column shifted
         if shape == '1-n':
             dr = Data(k=k2, s=np.roll(k2, 1), w=np.arange(len(k2), dtype=float), label='R')
